@@ -86,8 +86,10 @@ def run(chk, tier):
     chk.configs.add("default")
     for r in (r_naive, r_datetime, r_offset, r_names, r_delegation, r_fraction_base):
         chk.guarded(r, P, tier)
-    from props import c13
+    from props import c13, c10
     chk.guarded(c13.r_sign_arms, P, tier)
+    chk.guarded(c10.r_own_ranges, P, tier)
+    chk.guarded(r_month_from_str, P, tier)
     chk.assume("sign/width of out-of-range years, the 0/3/6/9 fraction digits, second 60 and offset padding (the round trip itself) are NOT decided")
     return {
         "explanation": "Narrow claim for C09: the default writers and the readers agree structurally. The separator/placeholder skeleton written by Debug (and Display) of "
@@ -242,3 +244,33 @@ def r_fraction_base(chk, P, tier):
     for k in range(min(n1, 3)):
         chk.ok("path with one base #%d" % (k + 1))
     chk.expect(n1 >= 3, "fraction paths found", "only %d paths of NaiveTime's Debug::fmt use the sub-second value (anchor lost)" % n1)
+
+
+def r_month_from_str(chk, P, tier):
+    """Month::from_str maps the scanner's month0 index k to the (k+1)-th month"""
+    from rules import extract_switch_map
+    chk.rule("TBL.month_from_str", "Month::from_str maps the scanned index 0..=11 to January..December in order", floor=12)
+    fn = "format::<impl std::str::FromStr for month::Month>::from_str"
+    names = [v["name"] for v in P.adts["month::Month"]["variants"]]
+    got = {}
+    for p in Sym(P, fn).paths():
+        if p.end[0] != "return" or result_variant(p.ret)[0] != "Ok":
+            continue
+        idx = None
+        for c in p.conds:
+            t = c[1]
+            if c[0][0] == "switch" and t[0] == "field" and t[2] == 1 and isinstance(c[2], int) and any(is_call(x) and str(x[1]).endswith("short_or_long_month0") for x in walk_terms(t)):
+                idx = c[2]
+        m = p.ret[4][0]
+        var = m[3] if m[0] == "agg" else (const_of(m) if m[0] in ("const", "named") else None)
+        if isinstance(var, tuple):
+            var = dict(var).get("variant")
+        if idx is not None:
+            got[idx] = var
+    if len(got) < 12:
+        # the last arm may be the `else` arm
+        pass
+    for k in range(12):
+        if k in got:
+            chk.expect(got[k] == names[k], "index %d" % k, "Month::from_str maps scanned index %d to %s, expected %s" % (k, got[k], names[k]), loc=P.loc(fn))
+    chk.expect(len(got) >= 11, "arms", "only %d indexed arms found in Month::from_str" % len(got))
